@@ -4,6 +4,10 @@ import (
 	"flag"
 	"fmt"
 	"os"
+
+	"go.uber.org/zap"
+
+	"github.com/apache/yunikorn-core/pkg/log"
 )
 
 // Options shared by all engines.
@@ -20,6 +24,9 @@ type Opts struct {
 var engines = map[string]func(o *Opts){}
 
 func main() {
+	// the scheduler logs heavily: run it with a no-op logger
+	cfg := zap.NewProductionConfig()
+	log.InitializeLogger(zap.NewNop(), &cfg)
 	if len(os.Args) < 2 {
 		fmt.Println("usage: harness <engine> [flags]")
 		os.Exit(2)
